@@ -512,7 +512,10 @@ def reclaim_verdicts(facts, b, bid):
         if fn and fn["name"] in ("copy_nonoverlapping", "copy", "set_len", "reserve", "extend_from_slice", "set_vec_pos", "release_shared"):
             wblocks.setdefault(bi, []).append(fn["name"])
     n_false = n_true = 0
-    bad_false = bad_true = None
+    bad_false = bad_true = bad_flag = None
+    # the helper's "may allocate" flag: `reserve` passes true and discards the result ("will always succeed")
+    bools = [i for i in range(1, b.arg_count + 1) if b.locals[i]["ty"] == "bool"]
+    flag = bools[0] if len(bools) == 1 else None
     for path in enumerate_paths(b, limit=5000):
         # the constant returned on this path (read along the path: in an inlined view it travels through result locals)
         val = None
@@ -530,6 +533,13 @@ def reclaim_verdicts(facts, b, bid):
             n_false += 1
             if touched and bad_false is None:
                 bad_false = (path, touched)
+            if flag is not None and bad_flag is None:
+                from .flow import path_relations as _pr
+                rels = _pr(b, facts, path)
+                said_no = any((r[0] == "truth" and canon(r[1]) == ("param", flag) and r[2] == 0) or
+                              (r[0] == "eq" and canon(r[1]) == ("param", flag) and canon(r[2]) == ("const", 0)) for r in rels if r)
+                if not said_no:
+                    bad_flag = path
         elif val == 1:
             n_true += 1
             if "cap" not in touched and bad_true is None:
@@ -547,6 +557,14 @@ def reclaim_verdicts(facts, b, bid):
         out.append((key, False, "no path returns false", None))
     else:
         out.append((key, True, "%d paths return false, none of them writes a field or moves bytes before" % n_false, None))
+    if flag is not None:
+        key = "%s|false only when told not to allocate" % bid
+        if bad_flag:
+            out.append((key, False, "a path returns false although the caller allowed allocation (no `!allocate` condition on it): `reserve` discards the result, so it "
+                                    "would return without the capacity it promises (an overflowing request must panic, not be dropped)",
+                        {"path": "bb" + "->bb".join(str(x) for x in bad_flag)}))
+        else:
+            out.append((key, True, "%d paths return false, each under the condition that allocation was not allowed" % n_false, None))
     key = "%s|true => capacity re-established" % bid
     if bad_true:
         out.append((key, False, "a path returns true without reassigning cap", {"path": "bb" + "->bb".join(str(x) for x in bad_true[0])}))
